@@ -183,7 +183,7 @@ func validateCtlTraces(r *ev.Run, prop, source string, traces [][]brk.TraceEv, n
 		idx[i] = i
 	}
 	var rej []int
-	if err := findRejected("BrokerCtlTrace", cfgText, idx, traces, 3, &rej); err != nil {
+	if err := findRejected("BrokerCtlTrace", cfgText, idx, traces, 6, &rej); err != nil {
 		r.Inconclusive("%s: bisecting: %v", source, err)
 		return
 	}
